@@ -313,6 +313,24 @@ def install():
     Scheduler.INTERVAL_MAIN_LOOP = 0.0
     Scheduler.INTERVAL_MAIN_LOOP_QUICK = 0.0
 
+    # stall decision point (C03: judged on the pool as it was when the
+    # scheduler decided, not at the end of the iteration)
+    orig_cws = Scheduler.check_workflow_stalled
+
+    @functools.wraps(orig_cws)
+    def check_workflow_stalled(self):
+        before = bool(self.is_stalled)
+        ret = orig_cws(self)
+        if DRV is not None and not before and self.is_stalled:
+            from vlib.e1.driver import snap_pool
+            snap = snap_pool(self.pool)
+            _emit('STALL_DECIDED', n=len(snap))
+            for m in DRV.monitors:
+                if hasattr(m, 'on_stall_decided'):
+                    DRV._safe(m.on_stall_decided, DRV, snap)
+        return ret
+    Scheduler.check_workflow_stalled = check_workflow_stalled
+
     # data-store update point (C25 oracle A)
     orig_uds = Scheduler.update_data_structure
 
